@@ -150,7 +150,8 @@ def run(ctx):
         ac = 10.0
         r_ = float(rng.random())
         ranges = [(-1e3, 1e3), (ac + 2 + r_, ac + 40.0), (ac - 40.0, ac - 2 - r_), (ac - 0.3 * r_, ac + 0.3 * r_),
-                  (round(ac + float(rng.normal(0, 3)), 2),) * 2, (-30.0, -1.0 - r_), (0, 40), (0.0, np.inf)]
+                  (round(ac + float(rng.normal(0, 3)), 2),) * 2, (-30.0, -1.0 - r_), (0, 40), (0.0, np.inf),
+                  (-7.5 - r_, 0), (0, 0), (0.0, 3.0 + r_)]          # (bounds that are exactly zero: "no extinction", "no negative extinction")
         fitters = []
         try:
             for (lo, hi) in list(ranges):
